@@ -273,4 +273,69 @@ theorem glycan_str_eq_dict (g : Comp) (isMono : Bool) (hu : Unambig (namesSorted
   rw [glycan_parse_write_gen g hu hv hk]
   exact ⟨rfl, rfl⟩
 
+/-! ## which written forms are unambiguous -/
+
+/-- sufficient condition, any vocabulary: the written form is unambiguous when no written name, extended by the first
+character of its count, is the beginning of another vocabulary name (and no vocabulary name starts with a count
+character) -/
+theorem unambig_of_no_clash (names : List Str) (g : Comp) (hne : ∀ nm ∈ names, nm ≠ [])
+    (hstart : ∀ nm ∈ names, startsCount nm = false)
+    (hk : ∀ kv ∈ g, kv.1 ∈ names) (hv : ∀ kv ∈ g, NumOK kv.2) (hc : NoClash names g = true) :
+    Unambig names g = true :=
+  unambig_of_noClash names hne hstart g hk hv hc
+
+/-- in the generated vocabulary the only name continued by a count character to another name is `Neu` (by `5`, to
+`Neu5Ac` / `Neu5Gc`) -/
+theorem only_clash_is_Neu5 : ∀ nm ∈ namesSorted MONO, ∀ c, (isDigit c || c == 45 || c == 46) = true →
+    clash (namesSorted MONO) nm c = true → nm = str% "Neu" ∧ c = 53 := by
+  have key : ∀ nm ∈ namesSorted MONO, ∀ n ∈ namesSorted MONO,
+      (match n.drop nm.length with
+        | c :: _ => nm.isPrefixOf n && (isDigit c || c == 45 || c == 46) && !(nm == str% "Neu" && c == 53)
+        | [] => false) = false := by decide +kernel
+  intro nm hnm c hc hcl
+  simp only [clash, List.any_eq_true] at hcl
+  obtain ⟨n, hn, hp⟩ := hcl
+  obtain ⟨r, hr⟩ := isPrefixOf_iff.1 hp
+  have h := key nm hnm n hn
+  have hd : n.drop nm.length = c :: r := by
+    rw [hr, List.append_assoc, List.drop_left]; rfl
+  have hpre : nm.isPrefixOf n = true := isPrefixOf_iff.2 ⟨c :: r, by rw [hr]; simp⟩
+  rw [hd] at h
+  simp only [hpre, hc, Bool.true_and, Bool.not_eq_false', Bool.and_eq_true, beq_iff_eq] at h
+  exact h
+
+/-- hence, for the generated table: every dict over names and synonyms with pairwise different keys and int / finite
+decimal counts survives write → parse, provided the count of `Neu` (if present) is not printed with a leading `5`
+(the only ambiguous written forms are `Neu5Ac…` / `Neu5Gc…`) -/
+theorem glycan_parse_write_gen_all (g : Comp) (hk : ∀ kv ∈ g, kv.1 ∈ namesSorted MONO)
+    (hv : ∀ kv ∈ g, NumWF kv.2) (hd : (g.map (·.1)).Nodup)
+    (hneu : ∀ kv ∈ g, kv.1 = str% "Neu" → ∀ s, kv.2.show ≠ 53 :: s) :
+    parseGlycan MONO (writeGlycan g []) [] = .ok g := by
+  have hok : ∀ kv ∈ g, NumOK kv.2 := fun kv hkv => numOK_of_wf kv.2 (hv kv hkv)
+  refine glycan_parse_write_gen g ?_ hv hd
+  apply unambig_of_noClash (namesSorted MONO) names_nonempty ?_ g hk hok
+  · simp only [NoClash, List.all_eq_true]
+    intro kv hkv
+    cases hsh : kv.2.show with
+    | nil => rfl
+    | cons c s =>
+      simp only [Bool.not_eq_true']
+      cases hcl : clash (namesSorted MONO) kv.1 c with
+      | false => rfl
+      | true =>
+        exfalso
+        have hc : (isDigit c || c == 45 || c == 46) = true := (hok kv hkv).chars c (by rw [hsh]; simp)
+        obtain ⟨h1, h2⟩ := only_clash_is_Neu5 kv.1 (hk kv hkv) c hc hcl
+        subst h2
+        exact hneu kv hkv h1 s hsh
+  · intro nm hnm
+    cases hn : nm with
+    | nil => rfl
+    | cons c r => exact names_start_no_count_char nm hnm c r hn
+
+example : ∀ kv ∈ [(str% "HexNAc", Num.ofInt 4), (str% "Hex", Num.ofInt 5), (str% "Fucose", Num.ofInt 1),
+    (str% "Neu", ⟨3/2, true⟩), (str% "Ac", Num.ofInt 20)],
+    kv.1 ∈ namesSorted MONO ∧ (kv.1 = str% "Neu" → (match kv.2.show with | 53 :: _ => false | _ => true) = true) := by
+  decide +kernel
+
 end C15Glycan
